@@ -159,7 +159,8 @@ def written(style, e):
     if style == "typescript":
         return e.replace("*/", "*\\/")
     if style == "pydoc":
-        return e.replace('"""', '\\"\\"\\"')
+        # backslashes doubled first (fix: commit 37d8a26), then `"""` escaped
+        return e.replace("\\", "\\\\").replace('"""', '\\"\\"\\"')
     if style == "swift":
         return rust_trim_end(e)
     return e
